@@ -616,11 +616,13 @@ def np_norm(x, ord=None, axis=None, keepdims=False):
 # ---------------------------------------------------------------------------
 def sp_lu(a, permute_l=False, overwrite_a=False, check_finite=True, p_indices=False):
     count('scipy.linalg.lu')
-    if permute_l or p_indices:
-        raise Unmodelled('lu(permute_l / p_indices)')
+    if p_indices:
+        raise Unmodelled('lu(p_indices)')
     A = _obj(a)
     fac = _lookup('lu', A)
     if fac is not None:
+        if permute_l:
+            return fac[0] @ fac[1], fac[2].copy()          # (P L, U)
         return fac[0].copy(), fac[1].copy(), fac[2].copy()
     raise Unmodelled('lu of an unregistered matrix')
 
